@@ -75,20 +75,36 @@ Print Assumptions C04_ecb_written_le_reported.
 (* ---- CBC with PKCS#7 ---- *)
 Theorem C04_cbc_stream_eq_oneshot : forall key iv (chunks : list (list N)), length iv = 16 ->
   cbc_encrypt_stream (implE key) iv chunks = Some (cbc_padding_encrypt (implE key) iv (concat chunks)) /\
-  cbc_decrypt_stream (implD key) iv chunks = cbc_padding_decrypt (implD key) iv (concat chunks).
+  cbc_decrypt_stream (implD key) iv chunks = sm4_cbc_padding_decrypt (implD key) iv (concat chunks).
 Proof. exact (fun key iv chunks H => conj (sm4_cbc_encrypt_stream_eq key iv chunks) (sm4_cbc_decrypt_stream_eq key iv chunks H)). Qed.
 Print Assumptions C04_cbc_stream_eq_oneshot.
 
 Theorem C04_cbc_eq_spec : forall key iv m, length iv = 16 ->
   cbc_padding_encrypt (implE key) iv m = cbc_pad_enc_spec (implE key) iv m /\
-  cbc_padding_decrypt (implD key) iv m = cbc_pad_dec_spec (implD key) iv m.
-Proof. exact (fun key iv m H => conj (sm4_cbc_padding_encrypt_eq_spec key iv m) (sm4_cbc_padding_decrypt_eq_spec key iv m H)). Qed.
+  sm4_cbc_padding_decrypt (implD key) iv m = cbc_pad_dec_spec_strict (implD key) iv m.
+Proof. exact (fun key iv m H => conj (sm4_cbc_padding_encrypt_eq_spec key iv m) (sm4i_cbc_padding_decrypt_eq_spec key iv m H)). Qed.
 Print Assumptions C04_cbc_eq_spec.
 
 Theorem C04_cbc_dec_enc : forall key iv m, length iv = 16 -> bytes_ok iv = true -> bytes_ok m = true ->
-  cbc_padding_decrypt (implD key) iv (cbc_padding_encrypt (implE key) iv m) = Some m.
-Proof. exact sm4_cbc_dec_enc. Qed.
+  sm4_cbc_padding_decrypt (implD key) iv (cbc_padding_encrypt (implE key) iv m) = Some m.
+Proof. exact sm4i_cbc_dec_enc. Qed.
 Print Assumptions C04_cbc_dec_enc.
+
+(* padding removal since 75d04f0 is PKCS#7 proper: accepted exactly when the decrypted string is
+   m || p^p with 1 <= p <= 16 (the Spec side of C04_cbc_eq_spec) *)
+Theorem C04_pkcs7_unpad_strict_iff : forall P m,
+  pkcs7_unpad_strict P = Some m <-> exists p, 1 <= p <= 16 /\ P = m ++ repeat (N.of_nat p) p.
+Proof. exact pkcs7_unpad_strict_char. Qed.
+Print Assumptions C04_pkcs7_unpad_strict_iff.
+
+(* the rule before 75d04f0 (last byte only; still the rule of aes_cbc_padding_decrypt): .. 05 02 *)
+Theorem C04_sm4_cbc_padding_before_75d04f0 :
+  let blk := zeros 14 ++ [5%N; 2%N] in
+  cbc_padding_decrypt (fun b => b) (zeros 16) blk = Some (zeros 14) /\
+  sm4_cbc_padding_decrypt (fun b => b) (zeros 16) blk = None /\
+  pkcs7_unpad blk = Some (zeros 14) /\ pkcs7_unpad_strict blk = None.
+Proof. exact sm4_cbc_padding_before_75d04f0. Qed.
+Print Assumptions C04_sm4_cbc_padding_before_75d04f0.
 
 Theorem C04_cbc_written_le_reported : forall key iv (chunks : list (list N)) d, length iv = 16 ->
   match buf_run 16 false (cbc_enc_crypt (implE key)) (cbc_init iv) chunks with
